@@ -180,7 +180,7 @@ def r1_guard_on_every_cycle(ctx):
     else:
         ctx.ok("self-guarding|runtime::Runtime::eval_expr", ctx.need("runtime::Runtime::eval_expr").where(), "check_stack(..)? dominates every call in the body")
     # the probe itself compares against the budget and returns StackOverflow
-    probe_ok = any(s.get("rv", {}).get("k") == "bin" and s["rv"]["op"] == "Gt" for b in probe.blocks for s in b["s"]) and \
+    probe_ok = any(s.get("rv", {}).get("k") == "bin" and s["rv"]["op"] in ("Gt", "Ge", "Lt", "Le") for b in probe.blocks for s in b["s"]) and \
         "StackOverflow" in json.dumps(probe.m["blocks"])
     if probe_ok:
         ctx.ok("probe-shape", probe.where(), "distance > STACK_BUDGET -> Err(StackOverflow)")
@@ -275,11 +275,25 @@ def r2_probe_and_budget(ctx):
         if t["k"] != "switch":
             continue
         si = probe.switch_info(b)
-        if si["kind"] != "bin" or si["op"] not in ("Gt", "Ge"):
+        if si["kind"] != "bin" or si["op"] not in ("Gt", "Ge", "Lt", "Le"):
             continue
-        K = si["b"].get("int")
+        # normalise to  distance <op> K : the constant may stand on either side
+        dist_op, k_op, op = si["a"], si["b"], si["op"]
+        if isinstance(dist_op, dict) and dist_op.get("int") is not None:
+            dist_op, k_op = k_op, dist_op
+            op = {"Gt": "Lt", "Ge": "Le", "Lt": "Gt", "Le": "Ge"}[op]
+        K = k_op.get("int") if isinstance(k_op, dict) else None
+        over_is_nonzero = op in ("Gt", "Ge")      # which outcome of the switch means "deeper than the budget"
         # left operand: result of wrapping_sub(self.stack_base, addr-of-local)
-        la = (si["a"].get("move") or si["a"].get("copy")) if isinstance(si["a"], dict) else None
+        la = (dist_op.get("move") or dist_op.get("copy")) if isinstance(dist_op, dict) else None
+        seen_hops = 0
+        while la is not None and not la["p"] and seen_hops < 4:
+            dd = probe.whole_defs(la["l"])
+            if len(dd) == 1 and dd[0][1] != "t" and dd[0][2]["rv"]["k"] == "use" and isinstance(dd[0][2]["rv"]["a"], dict):
+                la = dd[0][2]["rv"]["a"].get("move") or dd[0][2]["rv"]["a"].get("copy")
+                seen_hops += 1
+            else:
+                break
         sub = None
         if la is not None:
             for (bi, k, st) in probe.whole_defs(la["l"]):
@@ -288,12 +302,12 @@ def r2_probe_and_budget(ctx):
         if sub is not None:
             a0 = sh(ne(probe.deep(sub["args"][0])))
             if a0 == "self.stack_base" and _addr_of_own_local(probe, sub["args"][1]):
-                # the true edge builds Err(StackOverflow)
-                tgt = [j for lab, j in probe.succ[b] if lab != 0]
+                # the "deeper than the budget" edge builds Err(StackOverflow)
+                tgt = [j for lab, j in probe.succ[b] if (lab != 0) == over_is_nonzero]
                 txt = json.dumps([probe.blocks[x]["s"] for x in probe.reach(tgt)])
                 if "StackOverflow" in txt and '"variant": "Err"' in txt:
                     shape = True
-    cmp_blocks = [b for b in sorted(probe.live) if probe.blocks[b]["t"]["k"] == "switch" and probe.switch_info(b)["kind"] == "bin" and probe.switch_info(b)["op"] in ("Gt", "Ge")]
+    cmp_blocks = [b for b in sorted(probe.live) if probe.blocks[b]["t"]["k"] == "switch" and probe.switch_info(b)["kind"] == "bin" and probe.switch_info(b)["op"] in ("Gt", "Ge", "Lt", "Le")]
     if shape and cmp_blocks:
         # the comparison is made on every call: no path from entry to a return goes round it (sampling the probe - every
         # n-th call, only for some callers - lets the stack grow unmeasured in between)
